@@ -1,7 +1,12 @@
 package ovsdb
 
 import (
+	"bytes"
 	"encoding/json"
+	"io"
+	"reflect"
+	"strconv"
+	"strings"
 )
 
 const (
@@ -129,4 +134,106 @@ func ovsSliceToGoNotation(val interface{}) (interface{}, error) {
 		return val, nil
 	}
 	return val, nil
+}
+
+// unmarshalExact is json.Unmarshal into *interface{}, *[]interface{} or
+// *map[string]interface{}, except for one thing: encoding/json decodes every
+// number to a float64, which cannot hold the integers beyond 2^53 that a
+// 64-bit OVSDB integer may be. An integer literal that a float64 cannot
+// is not sure to represent exactly (one beyond 2^53) is decoded to an int
+// instead; every other number is decoded to a float64 as before.
+func unmarshalExact(b []byte, v interface{}) error {
+	dec := json.NewDecoder(bytes.NewReader(b))
+	dec.UseNumber()
+	var raw interface{}
+	if err := dec.Decode(&raw); err != nil {
+		return err
+	}
+	if _, err := dec.Token(); err != io.EOF {
+		// trailing data: let json.Unmarshal word the error
+		if err := json.Unmarshal(b, new(interface{})); err != nil {
+			return err
+		}
+		return &json.SyntaxError{}
+	}
+	raw, err := exactNumbers(raw)
+	if err != nil {
+		return err
+	}
+	switch p := v.(type) {
+	case *interface{}:
+		*p = raw
+	case *[]interface{}:
+		switch t := raw.(type) {
+		case nil:
+			*p = nil
+		case []interface{}:
+			*p = t
+		default:
+			return &json.UnmarshalTypeError{Value: jsonKind(raw), Type: reflect.TypeOf(*p)}
+		}
+	case *map[string]interface{}:
+		switch t := raw.(type) {
+		case nil:
+			*p = nil
+		case map[string]interface{}:
+			*p = t
+		default:
+			return &json.UnmarshalTypeError{Value: jsonKind(raw), Type: reflect.TypeOf(*p)}
+		}
+	default:
+		return json.Unmarshal(b, v)
+	}
+	return nil
+}
+
+func jsonKind(v interface{}) string {
+	switch v.(type) {
+	case map[string]interface{}:
+		return "object"
+	case []interface{}:
+		return "array"
+	case string:
+		return "string"
+	case bool:
+		return "bool"
+	}
+	return "number"
+}
+
+// exactNumbers replaces the json.Number values of a decoded JSON value
+func exactNumbers(v interface{}) (interface{}, error) {
+	var err error
+	switch t := v.(type) {
+	case json.Number:
+		if s := t.String(); !strings.ContainsAny(s, ".eE") {
+			if i, err := strconv.ParseInt(s, 10, 64); err == nil && beyondFloat(int(i)) {
+				return int(i), nil
+			}
+		}
+		f, err := t.Float64()
+		if err != nil {
+			return nil, &json.UnmarshalTypeError{Value: "number " + t.String(), Type: reflect.TypeOf(f)}
+		}
+		return f, nil
+	case []interface{}:
+		for i := range t {
+			if t[i], err = exactNumbers(t[i]); err != nil {
+				return nil, err
+			}
+		}
+	case map[string]interface{}:
+		for k := range t {
+			if t[k], err = exactNumbers(t[k]); err != nil {
+				return nil, err
+			}
+		}
+	}
+	return v, nil
+}
+
+// beyondFloat tells whether an integer is outside the range in which a
+// float64 holds every integer exactly
+func beyondFloat(i int) bool {
+	return i > 1<<53 || i < -(1<<53)
 }
